@@ -36,7 +36,8 @@ import predicate.named_predicate as NP_MOD
 import predicate.predicate as PP
 import predicate.truth_table as TT_MOD
 from predicate.named_predicate import NamedPredicate
-from predicate.standard_predicates import all_p, any_p, comp_p, fn_p, ge_p, is_int_p, is_none_p
+from predicate.standard_predicates import all_p, any_p, comp_p, eq_p, fn_p, ge_p, is_int_p, is_none_p
+from predicate.set_predicates import in_p, is_subset_p, not_in_p
 from predicate.truth_table import get_named_predicates, truth_table
 
 NAMES = ["p", "q", "r", "s", "pq", "B", "a1", "t", "Z", "qa", "a", "b"]
@@ -45,7 +46,9 @@ MAP_UNSORTED = [1, 0, 5, 4]   # "q", "p", "B", "pq": declaration order is not th
 FOREIGN = [lambda: ge_p(1), lambda: all_p(is_int_p), lambda: fn_p(lambda x: True), lambda: is_none_p,
            # foreign nodes that themselves CONTAIN variables / connectives (fields named like the connectives' own)
            lambda: comp_p(str, NamedPredicate(name="p")), lambda: all_p(NamedPredicate(name="q")),
-           lambda: comp_p(bool, NamedPredicate(name="p") ^ NamedPredicate(name="q")), lambda: any_p(~NamedPredicate(name="p"))]
+           lambda: comp_p(bool, NamedPredicate(name="p") ^ NamedPredicate(name="q")), lambda: any_p(~NamedPredicate(name="p")),
+           # foreign leaves whose parameters are awkward to print / compare (the rejection must still be a ValueError)
+           lambda: in_p(1, "a"), lambda: not_in_p(None, 0), lambda: eq_p(float("nan")), lambda: is_subset_p({1, "a"})]
 
 # ------------------------------------------------------------------ shapes
 # ["var", i] | ["true"] | ["false"] | ["other", k] | ["not", a] | ["and"|"or"|"xor", a, b]
@@ -116,7 +119,7 @@ def show(shape, names):
     if k in ("true", "false"):
         return k
     if k == "other":
-        return ["ge_p(1)", "all_p(is_int_p)", "fn_p(<lambda>)", "is_none_p", "comp_p(str, p)", "all_p(q)", "comp_p(bool, p ^ q)", "any_p(~p)"][shape[1]]
+        return ["ge_p(1)", "all_p(is_int_p)", "fn_p(<lambda>)", "is_none_p", "comp_p(str, p)", "all_p(q)", "comp_p(bool, p ^ q)", "any_p(~p)", "in_p(1, 'a')", "not_in_p(None, 0)", "eq_p(nan)", "is_subset_p({1, 'a'})"][shape[1]]
     if k == "not":
         return f"~{show(shape[1], names)}"
     return f"({show(shape[1], names)} { {'and': '&', 'or': '|', 'xor': '^'}[k] } {show(shape[2], names)})"
